@@ -125,7 +125,7 @@ Fixpoint fk_from (pds : list cdecl) (p : tstate) (ds : list cdecl) (vs : list va
 Fixpoint uq_from (t : tstate) (ds : list cdecl) (i : nat) (vs : list value) : bool :=
   match ds, vs with
   | d :: ds', v :: vs' =>
-      (negb (c_key d =? 1) || is_null v || negb (idx_mem v (get_idx t i))) && uq_from t ds' (S i) vs'
+      (negb (is_key d) || is_null v || negb (idx_mem v (get_idx t i))) && uq_from t ds' (S i) vs'
   | _, _ => true
   end.
 
